@@ -203,6 +203,15 @@ def check_case(rec):
         DEFS.update(d.get('defs') or {})
     sym = [arr_of(d) for d in rec['operands']]
     is_agg = form in ('sum', 'prod', 'mean', 'median', 'stddev', 'size') or form.startswith('rank')
+    if any(d.get('names_variant') for d in rec['operands']):
+        # equally shaped NAMED operands whose index names differ (or come in another order): "operands whose ... index names do not
+        # match are rejected with an error rather than yielding values"
+        if not rec['accepted']:
+            return [('rejects-name-mismatch', 'discharged', rec.get('error'))]
+        yields = [k for k, (fs, v) in rec['result'].items() if isinstance(v, float)]
+        return [('rejects-name-mismatch', 'counterexample' if yields else 'discharged',
+                 ('the index names of the operands do not match (%s) but the equation is accepted and element [%s] evaluates to %s'
+                  % ([d.get('names_variant') for d in rec['operands']], yields[0], rec['result'][yields[0]][1])) if yields else None)]
     # ---- acceptance --------------------------------------------------------------------------------
     if is_agg:
         spec_ok, spec = True, None
@@ -292,6 +301,8 @@ def check_case(rec):
 def family(rec):
     f = rec['form']
     special = [k[0] for k in rec['kinds'] if isinstance(k, list) and k and isinstance(k[0], str)]
+    if special and special[0] == 'M':
+        return 'named-mismatch.%s' % f
     if special:
         grp = 'aggregate' if (f in ('sum', 'prod', 'mean', 'median', 'stddev', 'size') or f.startswith('rank')) else ('dot' if f == 'dot' else 'elementwise')
         return '%s.%s.%s' % ({'D': 'derived-operand', 'R': 'reshaped-operand'}[special[0]], grp, 'rank' if f.startswith('rank') else f)
